@@ -1190,6 +1190,12 @@ def run_e2(spec, monitor_factory, path, prefix_ok=False, trace=False, lenient=Fa
                 return None
             rest = list(it)
             if rest:
+                due = [e for e in w.env._events if e.time <= w.horizon]
+                if due:
+                    v = Violation('run_end', f'the run returned at t={w.env.now} although {len(due)} event(s) due no later than '
+                                             f'its end t={w.horizon} were still pending (first: {canon.event_key(due[0])[:4]})')
+                    v.mc_steps = state['n']
+                    raise v
                 raise HarnessError(f'replay: {len(rest)} recorded steps left after the run ended')
             w.final()
     finally:
